@@ -232,6 +232,14 @@ func c11Docs(n int, reduced int, visit func(doc string) bool) {
 	attrs := []string{"", ` k="1"`, ` p:k="2"`, ` k="1" p:k="2"`}
 	leads := []string{"", "1", "x"}
 	trails := []string{"", "1"}
+	if reduced < 0 {
+		// character data the decoder hands out in several pieces: next to CDATA sections, around comments
+		// and processing instructions - one text node per piece, as in the reference DOM
+		names = []string{"a", "b"}
+		attrs = []string{"", ` k="1"`}
+		leads = []string{"x<![CDATA[1]]>x", "1<!--c-->x"}
+		trails = []string{"", "<![CDATA[1]]><![CDATA[x]]><?pi x?>1"}
+	}
 	if reduced >= 1 {
 		attrs = []string{"", ` k="1" p:k="2"`}
 		leads = []string{"", "1"}
@@ -287,7 +295,7 @@ func init() {
 	core.Register(&core.Prop{
 		ID:    "C11",
 		Level: "exploration",
-		Rule:  "every XML document with 1-3 elements (thorough: 4, reduced alphabets) over names {a,b,p:a}, attributes {none,k,p:k,k+p:k}, text before/after the children x every expression of the grammar (11 axes + attribute x node tests {a,b,p:a,*,text(),node()} x 17 predicates incl. positional, last(), attribute, string-value, count, name; 60 abbreviated/union/function expressions; 20 expressions whose string literals contain runs of spaces, tabs or line breaks over documents whose values differ only in white space; thorough: 2-step paths) x every context node (document node, every element and text node); idr.MatchAll results must equal, in number, order, identity (child-index path) and string-value, the results of the same compiled expression over a plain reference DOM with a straightforward navigator; distinct by (document, expression, context)",
+		Rule:  "every XML document with 1-3 elements (thorough: 4, reduced alphabets) over names {a,b,p:a}, attributes {none,k,p:k,k+p:k}, text before/after the children (also in several pieces: next to CDATA sections, around comments and processing instructions) x every expression of the grammar (11 axes + attribute x node tests {a,b,p:a,*,text(),node()} x 17 predicates incl. positional, last(), attribute, string-value, count, name; 60 abbreviated/union/function expressions; 20 expressions whose string literals contain runs of spaces, tabs or line breaks over documents whose values differ only in white space; thorough: 2-step paths) x every context node (document node, every element and text node); idr.MatchAll results must equal, in number, order, identity (child-index path) and string-value, the results of the same compiled expression over a plain reference DOM with a straightforward navigator; distinct by (document, expression, context)",
 		Assumptions: []string{
 			"the xpath engine (antchfx/xpath v1.1.11) is shared; the reference is its straightforward DOM binding (ref/dom.go, modelled on antchfx/xmlquery's navigator, whose context node is the navigator root), built from encoding/xml raw tokens",
 			"documents bind every namespace URI to one prefix (the two-prefix deviation is C08's known finding)",
@@ -375,9 +383,9 @@ func init() {
 				}
 			}
 			type plan struct{ n, reduced int }
-			plans := []plan{{1, 0}, {2, 0}, {3, 2}}
+			plans := []plan{{1, 0}, {1, -1}, {2, 0}, {2, -1}, {3, 2}}
 			if !c.Quick() {
-				plans = []plan{{1, 0}, {2, 0}, {3, 1}, {4, 3}}
+				plans = []plan{{1, 0}, {1, -1}, {2, 0}, {2, -1}, {3, 1}, {3, -1}, {4, 3}}
 			}
 			for _, pl := range plans {
 				stop := false
